@@ -202,7 +202,18 @@ func (r *ReaderStream) Read(p []byte) (int, error) {
 // manner that's safe for the assembler (IE: it doesn't block).
 func (r *ReaderStream) Close() error {
 	r.current = nil
+	if r.closed {
+		// end of stream already seen (or already closed): nothing is outstanding
+		return nil
+	}
 	r.closed = true
+	if r.first {
+		r.first = false
+	} else {
+		// Read took a batch it has not acknowledged yet; the assembler is
+		// waiting for that before it can send more or complete.
+		r.done <- true
+	}
 	for {
 		if _, ok := <-r.reassembled; !ok {
 			return nil
